@@ -104,6 +104,16 @@ Proof.
     assert (Y : (length xs <=? c) = false) by (apply Nat.leb_gt; lia). rewrite Y in E. exact E.
 Qed.
 
+(* a (capacity, range) constructor whose range does not fit raises and leaves NO object *)
+Lemma constructor_that_does_not_fit : forall P i c xs, i < length P -> c < length xs ->
+  pstep None (ONewFrom i c xs) P = (pset P i None, Raised).
+Proof.
+  intros P i c xs Hi Hc. simpl. unfold construct.
+  destruct (make_from None c (map Filled xs)) as [st o] eqn:E. apply make_from_refines in E. rewrite map_length in E.
+  assert (Y : (length xs <=? c) = false) by (apply Nat.leb_gt; lia). rewrite Y in E. subst o. simpl.
+  apply Nat.ltb_lt in Hi. now rewrite Hi.
+Qed.
+
 (* a refused single-element operation leaves the container unchanged (any fault plan) *)
 Lemma failed_single_op_unchanged : forall st, WInv st ->
   (forall p v st', nonfresh v -> append p v st = (st', Raised) -> st' = st) /\
@@ -296,7 +306,7 @@ Definition writes (o : op) : list nat :=
   | OEmplace i _ _ | OEmplaceBack i _ | OInsert i _ | OInsertMove i _ | OPushBack i _
   | OInsertRange i _ _ | OInsertList i _ _ | OPushBackRange i _ | OPop i | OErase i _ | ODestroy i
   | OEmplaceAt i _ _ | OEmplaceBackAt i _ | OInsertAt i _ | OPushBackAt i _ | OInsertSelfRange i _ _ _ | OPushBackSelfRange i _ _
-  | OEraseBefore i _ | OEmplaceBefore i _ _ | OInsertRangeBefore i _ _ => [i]
+  | OEraseBefore i _ | OEmplaceBefore i _ _ | OInsertRangeBefore i _ _ | OConstructFrom i _ _ => [i]
   end.
 
 Lemma on_obj_frame P i f P' o k : on_obj P i f = (P', o) -> k <> i -> nth_error P' k = nth_error P k.
@@ -322,6 +332,7 @@ Proof.
   - destruct (pget P i); [|inversion H; auto].
     destruct (pget P j); inversion H; auto. unfold pset. rewrite !nth_error_upd_other by (apply NK; auto). reflexivity.
   - destruct (i <? length P); inversion H; auto. unfold pset. rewrite nth_error_upd_other by (apply NK; auto). reflexivity.
+  - destruct (i =? j); [inversion H; auto|]. destruct (pget P j); [|inversion H; auto]. eapply construct_frame; eauto.
 Qed.
 
 Lemma iteration_orders : forall st, Inv st ->
